@@ -6,7 +6,7 @@ PID = "C16"
 MODULE, PKG, BIN = "core", "./verifh/c16", "c16"
 COQ_IMPORTS = "From Synnax Require Import Common.Base Core.Ontology Monitors.Mon_C16."
 CASE_TYPE = "case_t"
-COUNTS = {"quick": 400, "thorough": 20000}
+COUNTS = {"quick": 600, "thorough": 20000}
 SHARD = 64
 HARNESS_TIMEOUT = 1500
 SEP_TAG = "id_contains_relationship_separator"
